@@ -52,6 +52,7 @@ type Session struct {
 	curRead   int // index of event currently being read, -1 none
 	curLeft   int // unread bytes of it
 	writerErr bool
+	ioFault   bool // an injected I/O fault hit during the current call
 
 	Reach     map[uint64]string // committed txid -> reach set
 	Reach0    string
@@ -455,11 +456,13 @@ func (s *Session) RNext() int {
 	if sz <= 0 {
 		if avail > 0 {
 			s.fail("C05", "reader-missing", "Reader.Next reports no event (%d) but %d flushed events are unread (flushed=%d consumed=%d)", sz, avail, s.Flushed, s.Consumed)
+			s.fail("C06", "flushed-lost", "%d events of flushes that returned success are not in the queue (flushed=%d consumed=%d acked=%d)", avail, s.Flushed, s.Consumed, s.Acked)
 		}
 		return -1
 	}
 	if avail <= 0 {
 		s.fail("C05", "reader-extra", "Reader.Next delivered an event of %d bytes but no flushed event is unread (flushed=%d consumed=%d finished=%d)", sz, s.Flushed, s.Consumed, s.Finished)
+		s.fail("C06", "unexpected-event", "the queue delivers an event beyond the flushed ones (an ACKed event again, or an event of no successful flush): flushed=%d consumed=%d acked=%d", s.Flushed, s.Consumed, s.Acked)
 		return -1
 	}
 	idx := s.Consumed
@@ -525,7 +528,7 @@ func (s *Session) ACK(n int) string {
 		}
 		s.Acked += n
 		s.mark("ack")
-	} else if n <= s.Flushed-s.Acked && n > 0 {
+	} else if n <= s.Flushed-s.Acked && n > 0 && !s.ioFault {
 		s.fail("C12", "ack-failed", "ACK(%d) with %d pending events failed: %s", n, s.Flushed-s.Acked, res)
 	}
 	s.markState()
